@@ -25,6 +25,13 @@ def extract(ctx):
                        stderr=subprocess.STDOUT, text=True, timeout=120)
     if p.returncode != 0 or not os.path.exists(GEN):
         raise checklib.CheckError("C08 fact extractor failed: " + p.stdout[-800:])
+    genp = os.path.join(checklib.LEAN, "Ecal", "Gen", "C08Print.lean")
+    if os.path.exists(genp):
+        os.remove(genp)
+    p = subprocess.run([binp, "C08", "-tool", "isprint", genp], env=checklib.GOENV, stdout=subprocess.PIPE,
+                       stderr=subprocess.STDOUT, text=True, timeout=120)
+    if p.returncode != 0 or not os.path.exists(genp):
+        raise checklib.CheckError("C08 strconv.IsPrint table extractor failed: " + p.stdout[-800:])
     gen = open(GEN).read()
     established = "def shapeOk : Bool := true" in gen
     ctx.coverage["bracket_rule_translated"] = established
